@@ -397,6 +397,8 @@ class Engine:
                 return VFunc("repo", name)
             if name in self.mod.classes:
                 return VClass(name)
+            if name in B.BUILTINS and name not in B.TYPE_NAMES and name in self.mod.imports:
+                return VFunc("builtin", name)       # islice, partial, isinf, ... imported from the standard library
             c = self.module_constant(name)
             if c is not None:
                 return c
